@@ -398,8 +398,11 @@ def container_subclass_case(rng, tier, rec, st):
     collections package: the generated code builds collections.deque(...) & co. and has to bind that module itself."""
     import collections
     from mashumaro.codecs.basic import BasicDecoder, BasicEncoder
-    if rng.random() < 0.3:
+    x = rng.random()
+    if x < 0.25:
         return local_default_factory_case(rng, tier, rec, st)
+    if x < 0.5:
+        return local_type_argument_case(rng, tier, rec, st)
     fam = Family("c17", future_annotations=rng.random() < 0.2)
     try:
         names = rng.sample(sorted(CONTAINER_SUBCLASSES), rng.randint(1, 2))
@@ -434,6 +437,53 @@ def container_subclass_case(rng, tier, rec, st):
             else:
                 rec.violation(f"container-subclass:{name}:wrong-value", dict(ctx, observed=[common.short(out, 200), common.short(back, 200)], expected=common.short(doc, 200)), facts)
         walk_new_functions(rec, st, dict(ctx, kind="container-subclass"))
+    finally:
+        fam.dispose()
+
+
+def local_type_argument_case(rng, tier, rec, st):
+    """a generic dataclass specialised (through inheritance or as a member type) with a class defined inside a function: the
+    name generated code uses for the argument is bound to that class, not to the type variable it replaces."""
+    from mashumaro.codecs.basic import BasicDecoder, BasicEncoder
+    fam = Family("c17")
+    try:
+        akind = rng.choice(["enum", "dataclass", "strenum"])
+        asrc = {"enum": "    class Arg(enum.Enum):\n        R = 1\n        G = 2\n", "strenum": "    class Arg(str, enum.Enum):\n        R = 'r'\n        G = 'g'\n",
+                "dataclass": "    @dataclass\n    class Arg:\n        n: int = 0\n"}[akind]
+        how = rng.choice(["inherit", "member"])
+        mixin = "DataClassDictMixin, " if rng.random() < 0.7 else ""
+        src = ("T = TypeVar('T')\ndef make():\n" + asrc +
+               f"    @dataclass\n    class Box({mixin}Generic[T]):\n        x: T\n        xs: List[T] = field(default_factory=list)\n        o: Optional[T] = None\n" +
+               ("    @dataclass\n    class Out(Box[Arg]):\n        pass\n" if how == "inherit" else
+                f"    @dataclass\n    class Out({mixin.rstrip(', ')}):\n        b: Box[Arg]\n".replace("Out()", "Out")) +
+               "    return Arg, Box, Out\nArg, Box, Out = make()\n")
+        ctx = {"source": src}
+        facts = {"scenario": "local-type-argument", "monitor": "container-subclass", "argument": akind, "how": how}
+        rec.evaluation()
+        try:
+            fam.exec_src(src)
+        except Exception as e:
+            rec.violation(f"local-type-argument:class-build:{type(e).__name__}", dict(ctx, error=f"{type(e).__name__}: {e}"[:300]), dict(facts, exc=type(e).__name__))
+            return
+        m = fam.module
+        a1, a2, w1, w2 = {"enum": (m.Arg.R, m.Arg.G, 1, 2), "strenum": (m.Arg.R, m.Arg.G, "r", "g"), "dataclass": (m.Arg(1), m.Arg(2), {"n": 1}, {"n": 2})}[akind]
+        inner_doc = {"x": w1, "xs": [w2, w1], "o": None}
+        v, doc = (m.Out(a1, [a2, a1]), inner_doc) if how == "inherit" else (m.Out(m.Box(a1, [a2, a1])), {"b": inner_doc})
+        routes = [("codec", lambda: (BasicEncoder(m.Out).encode(v), BasicDecoder(m.Out).decode(doc)))] + ([("mixin", lambda: (v.to_dict(), m.Out.from_dict(doc)))] if mixin else [])
+        for name, fn in routes:
+            rec.evaluation()
+            try:
+                out, back = fn()
+            except Exception as e:
+                rec.violation(f"local-type-argument:{name}:{type(e).__name__}", dict(ctx, error=f"{type(e).__name__}: {e}"[:300], cause=repr(e.__context__)[:200]), dict(facts, exc=type(e).__name__))
+                continue
+            box = back if how == "inherit" else back.b
+            if out == doc and back == v and type(box.x) is m.Arg and type(box.xs[0]) is m.Arg:
+                rec.count("container_subclasses_ok")
+                rec.nontrivial(("local-type-argument", name, akind, how, bool(mixin)))
+            else:
+                rec.violation(f"local-type-argument:{name}:wrong-class-or-value", dict(ctx, observed=[common.short(out, 200), common.short(back, 200)]), facts)
+        walk_new_functions(rec, st, dict(ctx, kind="local-type-argument"))
     finally:
         fam.dispose()
 
